@@ -56,6 +56,10 @@ pub struct Ctx {
     pub shard: u64,
     pub nshards: u64,
     pub only: Option<(String, u64)>,
+    /// run only this family (all its cases of this shard)
+    pub only_family: Option<String>,
+    /// cap on the number of cases per family (sanitizer layers run small subsets)
+    pub limit: Option<u64>,
     pub trace: Option<std::fs::File>,
     pub miri: bool,
 
@@ -133,6 +137,8 @@ impl Ctx {
             shard,
             nshards,
             only: None,
+            only_family: None,
+            limit: None,
             trace: None,
             miri: cfg!(miri),
             evals: 0,
@@ -160,9 +166,10 @@ impl Ctx {
 
     /// Does this worker run anything of this family at all (used to skip set-up work)?
     pub fn family_wanted(&self, fam: &str) -> bool {
-        match &self.only {
-            Some((f, _)) => f == fam,
-            None => true,
+        match (&self.only, &self.only_family) {
+            (Some((f, _)), _) => f == fam,
+            (None, Some(f)) => f == fam,
+            (None, None) => true,
         }
     }
 
@@ -173,6 +180,7 @@ impl Ctx {
             return;
         }
         let fh = hash_str(name);
+        let n = self.limit.map(|l| n.min(l)).unwrap_or(n);
         for idx in 0..n {
             if !self.selected(name, idx) {
                 continue;
@@ -197,6 +205,7 @@ impl Ctx {
         if !self.family_wanted(name) {
             return;
         }
+        let n = self.limit.map(|l| n.min(l)).unwrap_or(n);
         for idx in 0..n {
             if !self.selected(name, idx) {
                 continue;
